@@ -65,8 +65,27 @@ def run(ctx):
                 break
             worst = worst | v[1]
         ok = worst is not None and worst <= frozenset(('+0', 'ps', '1'))
+        how = 'flow-insensitive fixpoint'
+        if not ok:
+            # second, flow-sensitive analysis (branch refinement): either proof suffices, both are sound
+            from ..flowai import FlowAI
+            worst2 = frozenset()
+            for fam in fams:
+                if not feasible(fam, env):
+                    continue
+                fv = field_values(fam['fields'], env)
+                fa = FlowAI(b, fv)
+                v = fa.value_of_operand_at(ss_bb, mult)
+                if v is None or v[0] != 'f' or not fa.converged:
+                    worst2 = None
+                    break
+                worst2 = worst2 | v[1]
+            if worst2 is not None and worst2 <= frozenset(('+0', 'ps', '1')):
+                ok, worst, how = True, worst2, 'flow-sensitive abstract interpretation with branch refinement'
+            elif worst2 is not None and worst is not None:
+                worst = worst & worst2 if (worst & worst2) else worst
         rep.check(ok, 'R1', 'optimise_state/step_ratio-unbounded', where(b, ss_bb),
-                  'multiplier in %s on every history' % (show(('f', worst)) if worst is not None else '?'),
+                  'multiplier in %s on every history (%s)' % (show(('f', worst)) if worst is not None else '?', how),
                   'the step multiplier can take values in %s: after a loop with few rejections the factor '
                   'inner_steps/(rejections+1) > 1 is multiplied in with no cap, so moves exceed max_step_size '
                   '(and every proposal then clamps to a bound)' % (show(('f', worst)) if worst is not None else 'unknown'))
